@@ -85,14 +85,18 @@ class PathGen:
             w["rec"] = 0
         if chain is not None and guided:
             if isinstance(v, dict):
-                w["idx"] = w["idx"] * 0.1
-                w["iwc"] = w["iwc"] * 0.1
-                w["slice"] = w["slice"] * 0.1
+                w["idx"] = w["idx"] * 0.04
+                w["iwc"] = w["iwc"] * 0.04
+                w["slice"] = w["slice"] * 0.04
             elif isinstance(v, list):
-                w["key"] = w["key"] * 0.1
-                w["wc"] = w["wc"] * 0.1
+                w["key"] = w["key"] * 0.04
+                w["wc"] = w["wc"] * 0.04
+            else:
+                # a scalar: only filters and parent steps can still select something
+                for k in ("key", "idx", "slice", "tuple", "wc", "iwc", "gwc", "rec"):
+                    w[k] = w[k] * 0.05
             if len(chain) == 1:
-                w["par"] = w["par"] * 0.15
+                w["par"] = w["par"] * 0.1
         if pdepth >= self.max_pred_depth:
             w["filt"] = 0
         kinds = [k for k in w if w[k] > 0]
@@ -112,9 +116,12 @@ class PathGen:
             sel = [chain + [v[i]]] if isinstance(v, list) and -len(v) <= i < len(v) else []
             return ["i", i], sel
         if kind == "slice":
-            a, b, c = (rng.choice([None, self.rint()]) for _ in range(3))
-            if c == 0:
-                c = rng.choice([None, 1, -1, 2, -2])
+            for _try in range(4):
+                a, b, c = (rng.choice([None, self.rint()]) for _ in range(3))
+                if c == 0:
+                    c = rng.choice([None, 1, -1, 2, -2])
+                if not (guided and isinstance(v, list) and v) or v[slice(a, b, c)]:
+                    break
             sel = [chain + [x] for x in v[slice(a, b, c)]] if isinstance(v, list) else []
             return ["s", a, b, c], sel
         if kind == "tuple":
@@ -130,6 +137,10 @@ class PathGen:
                     ents.append(rng.choice(KEYS))
                 else:
                     ents.append(self.rint())
+            if guided and isinstance(v, dict) and v and not any(isinstance(e, str) and e in v for e in ents):
+                ents.insert(rng.randint(0, len(ents)), rng.choice(list(v.keys())))
+            if guided and isinstance(v, list) and v and not any(isinstance(e, int) and -len(v) <= e < len(v) for e in ents):
+                ents.insert(rng.randint(0, len(ents)), rng.randrange(-len(v), len(v)))
             if ents and rng.random() < 0.3:
                 ents.append(rng.choice(ents))
             sel = []
@@ -157,7 +168,7 @@ class PathGen:
             return ["f", p], ([chain] if chain is not None else [])
         raise AssertionError(kind)
 
-    def gen_path(self, chain, maxlen=5, guided_p=0.75, pdepth=0, minlen=0):
+    def gen_path(self, chain, maxlen=5, guided_p=0.85, pdepth=0, minlen=0):
         rng = self.rng
         n = rng.randint(minlen, maxlen)
         steps = []
@@ -173,9 +184,12 @@ class PathGen:
                 conts = [c for c in sel if isinstance(c[-1], (dict, list))]
                 sel = conts or sel
             if sel:
-                cur = rng.choice(sel)
-            elif cur is not None and rng.random() < 0.5:
-                pass  # keep context (path selects nothing from here on, most likely)
+                conts = [c for c in sel if isinstance(c[-1], (dict, list)) and c[-1]]
+                cur = rng.choice(conts) if conts and rng.random() < 0.7 else rng.choice(sel)
+            elif guided and rng.random() < 0.7:
+                break  # the path selects nothing from here on: stop growing it
+            if guided and cur is not None and not isinstance(cur[-1], (dict, list)) and rng.random() < 0.6:
+                break  # reached a scalar
         return steps
 
     # ---- predicates ----
@@ -253,7 +267,7 @@ def gen_query(rng, profile="all", pred_profile="mixed", api=None, with_src=None,
         while sp and sp[-1][0] == "rec":
             sp.pop()
         sc["src"] = {"path": sp, "k": rng.randint(0, 3)}
-    sc["path"] = pg.gen_path(chain, maxlen=maxlen)
+    sc["path"] = pg.gen_path(chain, maxlen=maxlen, minlen=0 if rng.random() < 0.05 else (1 if rng.random() < 0.3 else 2))
     sc["api"] = api or rng.choice(["find_matches", "find_matches", "find", "get_match", "get"])
     if sc["api"] == "get_match":
         sc["must_match"] = rng.random() < 0.6
